@@ -11,6 +11,7 @@ LINK_KINDS = {
     'Z': dict(rate=8000, ch=1, n=0, q=0.3, sig='silence'),         # zero samples
     'G': dict(rate=8000, ch=1, n=2000, q=0.3, sig='mix', goff=1000),  # non-zero initial granule
     'E': dict(rate=16000, ch=2, n=2600, q=0.5, sig='noise'),
+    'K': dict(rate=44100, ch=1, n=5800, q=0.1, sig='impulse'),    # 256/2048 with block switching, many packets per page in natural layout
     'M': dict(rate=44100, ch=2, n=80000, q=0.7, sig='noise'),     # ~ >64 KiB
     'N': dict(rate=44100, ch=2, n=170000, q=0.7, sig='noise'),     # ~ >128 KiB
 }
@@ -219,6 +220,8 @@ def standard_files():
     # links whose whole audio sits in ONE page (first == last page), first, middle and last in a chain
     out['F5'] = chain('F5', [link('D', 501, 'natural'), link('A', 502, '4'), link('D', 503, 'natural'), link('B', 504, '3'), link('D', 505, 'natural')])
     out['F6'] = chain('F6', [multiplexed('A', 601, '3'), link('B', 602, '3')])
+    # block switching with many packets per page (natural paging): sample seeks into the final page discard several packets by tracking only
+    out['F7'] = chain('F7', [link('K', 711, 'natural'), link('K', 712, '8', n=4100)])
     # synthesised 64/128 link whose padded packets straddle 2-3 pages, with pages on which no packet ends (granule -1), between two encoder-made links
     out['F3'] = chain('F3', [link('D', 701, 'natural'), synth_link('std_span', 702, 64, 128, 36, pad=1400, span=4), link('B', 703, '3')])
     return out
